@@ -113,5 +113,5 @@ Proof.
   cbv zeta. split; [|reflexivity]. simpl.
   repeat split; try discriminate; try reflexivity; try (intros _; discriminate).
   - exists false. repeat split.
-  - intro H. exact H.
+  - intro H. exfalso. apply H. reflexivity.
 Qed.
